@@ -183,7 +183,7 @@ func glueRun(a []string, probe bool) (ret string) {
 			var word string
 			panicked := false
 			// a panic raised by the FPA rule's own script (dir, adjacent, the cairn script): known finding
-			// C07-fpa-script-panic on a tree without fixes/C07-fpa-script-decline.diff; the model is of the patched
+			// C07-fpa-script-panics-on-foreign-record on a tree without fixes/C07-fpa-script-declines.diff; the model is of the patched
 			// code and never prints `scriptpanic:` (with the patch the scripts decline and nothing reaches this recover)
 			scriptPanic := ""
 			func() {
